@@ -281,6 +281,17 @@ pub fn c15_histories(tier: Tier) -> Vec<Vec<Op>> {
             for m1 in r.pos.legal_moves() {
                 let p1 = r.pos.make(m1);
                 let l2 = p1.legal_moves();
+                // after a rule-special first move, moves that look playable but are illegal (they ignore
+                // a check, move a pinned piece, ...) must still be refused
+                if m1.promo.is_some() || crate::oracles::is_special(&r.pos, m1) || p1.in_check() {
+                    let mut h = vec![Op::SetBoard(fen.clone()), Op::Move(m1)];
+                    for x in p1.pseudo_illegal().into_iter().take(8) {
+                        h.push(Op::Move(x));
+                    }
+                    if h.len() > 2 {
+                        out.push(h);
+                    }
+                }
                 if l2.is_empty() || tier == Tier::Quick && !(m1.promo.is_some() || crate::oracles::is_special(&r.pos, m1)) {
                     out.push(vec![Op::SetBoard(fen.clone()), Op::Move(m1)]);
                     continue;
